@@ -475,6 +475,13 @@ func (c *SpecCtx) svEq(a, b *SV) *Term {
 	if _, ok := isSeqType(c.ex.env.resolve(t)); ok {
 		return Eq(a.V.T, b.V.T)
 	}
+	// a pointer into an object (field, element, local) is never nil
+	if a.V != nil && a.V.Loc != nil && a.V.T == nil && isUntypedNil(b.T) {
+		return TFalse
+	}
+	if b.V != nil && b.V.Loc != nil && b.V.T == nil && isUntypedNil(a.T) {
+		return TFalse
+	}
 	// nil compared with slice
 	if _, ok := c.ex.env.resolve(t).Underlying().(*types.Slice); ok {
 		if isUntypedNil(a.T) {
